@@ -527,6 +527,27 @@ pub fn run(tier: Tier) -> i32 {
             }
         }
     }
+    // (i⁗′) the same requirement lists held by different containers and by containers with different histories (slice, vec
+    // built at once, by add_*, in stages, or used for a validation and then edited down with remove_*): equal lists, equal
+    // outcome
+    for (i, case) in c.iter().enumerate() {
+        let rq = &case.cfg.reqs;
+        if rq.always.is_empty() && rq.if_req.is_empty() && rq.prefixes.is_empty() {
+            continue;
+        }
+        let mut digests: Vec<(u8, String)> = Vec::new();
+        for b in [0u8, 1, 2, 4, 5] {
+            let mut c2 = case.clone();
+            c2.cfg.reqs.build = b;
+            t.eval();
+            digests.push((b, digest_of(&c2)));
+        }
+        if let Some((b, d)) = digests.iter().find(|(_, d)| *d != digests[0].1) {
+            viol(&mut t, "container-history", format!("case {}: the same requirement lists decide differently by container: construction path {} gives {} — path 0 gives {}", i, b, crate::run::truncate(d, 300), crate::run::truncate(&digests[0].1, 300)), Some(case));
+            break;
+        }
+        t.count("requirement_lists_decided_alike_by_five_containers");
+    }
     // (ii) threads on a small hot set (collisions on the same regex pools) and on the full corpus
     let hot: Vec<Case> = c.iter().take(24).cloned().collect();
     let hot_ref: Vec<u64> = reference.iter().take(24).copied().collect();
@@ -688,6 +709,7 @@ pub fn run(tier: Tier) -> i32 {
     ctx.gate("validations suspended at the provider and finished on another thread, same outcome as alone", t.get("interleaved_and_migrated_validations_agree"), tier.n(500, 8000));
     ctx.gate("validations that reached a long-lived provider (spare readiness 1–3, runs of 40), same outcome as alone", t.get("validations_served_by_a_long_lived_provider_agree"), tier.n(1500, 30_000));
     ctx.gate("requests on a window bound accepted alike with an immediate provider and one that takes 1.1 s", t.get("window_edge_requests_accepted_with_slow_and_fast_provider"), tier.n(12, 48));
+    ctx.gate("cases whose requirement lists were held by five containers / container histories, same outcome", t.get("requirement_lists_decided_alike_by_five_containers"), tier.n(1000, 20_000));
     ctx.gate("log records produced during the pass with a trace-level logger (outcomes unchanged)", t.get("log_records_during_logging_pass"), tier.n(2000, 20_000));
     ctx.gate("cold-start processes run", t.get("cold_start_processes"), n_cold);
     ctx.gate("cold-start processes whose first validations all took the same rarely travelled path (3 classes)", t.get("cold_start_same_class_processes"), 3 * tier.n(2, 12));
@@ -699,7 +721,7 @@ pub fn run(tier: Tier) -> i32 {
     }
     let rep = Report {
         level: "exploration",
-        rule: "Outcome comparator: a mixed corpus (accepted, 1–4 defects, hostile noise; both carriers, all options; services with signed-header requirements in every container; several unsigned headers under one required prefix; a distinctive identity and session per case; sibling cases that put the *same* wire request under another option set, clock or provider answer) is validated single-threaded to obtain reference digests (Ok/error kind, code, status + message + returned parts/body/principal/session + provider event log; the one thing left out is *which* of several unsigned prefixed headers a refusal message names); the same cases are then re-validated (i) twice in shuffled order, (i') with a trace-level logger installed and capturing, (i'') three at a time, each suspended at its key provider and polled in turn on one thread or finished by another thread, (i‴) in runs of 40 served by one long-lived provider object that arrives with 1–3 slots of readiness left over (a verifier that skipped the poll_ready handshake would be served first and refused later), (i⁗) for requests whose timestamp sits on a bound of the window, with a provider that takes 1.1 s of real time to answer, (ii) from 2/4/8/16 threads released by a barrier, each in its own permutation, on a 24-case hot set (many rounds) and on the full corpus, (iii) in fresh processes whose *first* validations happen on 16 threads at once (lazy statics and regex pools initialised under contention; also with every thread's first validation of one class — unparsable timestamp, runs of slashes, unknown charset — so that the statics used only there are contended too), (iv) in fresh processes sequentially (different HashMap seeds), meeting the cases in forward, reversed or shuffled order, every other one with a logger at Trace; thorough adds (v) the thread workload under ThreadSanitizer (-Zbuild-std) and under Miri with several scheduler seeds. Interleaving evidence is measured: global start/end sequence numbers give max in flight and overlapping first-call pairs. Distinct = distinct (case, mode) comparisons that agreed.".into(),
+        rule: "Outcome comparator: a mixed corpus (accepted, 1–4 defects, hostile noise; both carriers, all options; services with signed-header requirements in every container; several unsigned headers under one required prefix; a distinctive identity and session per case; sibling cases that put the *same* wire request under another option set, clock or provider answer) is validated single-threaded to obtain reference digests (Ok/error kind, code, status + message + returned parts/body/principal/session + provider event log; the one thing left out is *which* of several unsigned prefixed headers a refusal message names); the same cases are then re-validated (i) twice in shuffled order, (i') with a trace-level logger installed and capturing, (i'') three at a time, each suspended at its key provider and polled in turn on one thread or finished by another thread, (i‴) in runs of 40 served by one long-lived provider object that arrives with 1–3 slots of readiness left over (a verifier that skipped the poll_ready handshake would be served first and refused later), (i⁗) for requests whose timestamp sits on a bound of the window, with a provider that takes 1.1 s of real time to answer, (i⁗′) with the same requirement lists held by five kinds of container, one of them used for a validation and then edited down with remove_*, (ii) from 2/4/8/16 threads released by a barrier, each in its own permutation, on a 24-case hot set (many rounds) and on the full corpus, (iii) in fresh processes whose *first* validations happen on 16 threads at once (lazy statics and regex pools initialised under contention; also with every thread's first validation of one class — unparsable timestamp, runs of slashes, unknown charset — so that the statics used only there are contended too), (iv) in fresh processes sequentially (different HashMap seeds), meeting the cases in forward, reversed or shuffled order, every other one with a logger at Trace; thorough adds (v) the thread workload under ThreadSanitizer (-Zbuild-std) and under Miri with several scheduler seeds. Interleaving evidence is measured: global start/end sequence numbers give max in flight and overlapping first-call pairs. Distinct = distinct (case, mode) comparisons that agreed.".into(),
         assumptions: vec!["interleavings are sampled, not enumerated; no delay can be injected inside lazy_static/regex without patching dependencies".into()],
         extra: J::obj().set("calibrated_vectors", J::i(pre.unwrap_or(0) as i64)).set("sanitizers", san),
     };
